@@ -70,7 +70,7 @@ MORE_PROPS = {"theories/props/C15.v": ["theories/props/C15_state.v", "theories/p
               "theories/props/C02.v": ["theories/props/C14_roundtrip.v", "theories/props/C02_roundtrip.v"],
               "theories/props/C03.v": ["theories/props/C14_roundtrip.v", "theories/props/C03_shapes.v", "theories/props/C02_roundtrip.v"],
               "theories/props/C01.v": ["theories/props/C01_depth.v"],
-              "theories/props/C13.v": ["theories/props/C13_trailing.v", "theories/props/C13_optsep.v"],
+              "theories/props/C13.v": ["theories/props/C13_trailing.v", "theories/props/C13_optsep.v", "theories/props/C13_optsep_struct.v"],
               "theories/props/C16.v": ["theories/props/C16_errors.v", "theories/props/C16_tokens.v"]}
 
 
